@@ -148,20 +148,327 @@ def _toplevel_with(fn, ctx_name):
     return n
 
 
+# ----------------------------------------------------------------------------- canonicalisation (alpha-renaming, imports)
+# The shape checks below are written against the names the code uses today.  To stay insensitive to
+# behaviour-preserving rewrites, the parsed tree is first CANONICALISED: locals / private names are identified by
+# their ROLE (which call produces them, which slot they are unpacked from, which argument position they are passed
+# in) and renamed to today's names; qualified calls (`threading.current_thread()`, `_get_frame.get_frame(...)`) are
+# resolved through the import table and rewritten to the bare name.  A role that cannot be identified is simply not
+# renamed, so the checks that follow still fail closed.
+CANON_CALLS = {("._get_frame", "get_frame"): "get_frame", ("os.path", "basename"): "basename", ("os.path", "splitext"): "splitext",
+               ("threading", "current_thread"): "current_thread", ("multiprocessing", "current_process"): "current_process",
+               ("._datetime", "aware_now"): "aware_now", ("._recattrs", "RecordFile"): "RecordFile",
+               ("._recattrs", "RecordThread"): "RecordThread", ("._recattrs", "RecordProcess"): "RecordProcess"}
+
+
+def _module_aliases(tree):
+    """local name -> dotted module it denotes (`import a.b as c`, `import a`, `from p import m`)"""
+    out = {}
+    for node in tree.body:
+        if isinstance(node, ast.Import):
+            for a in node.names:
+                if a.asname:
+                    out[a.asname] = a.name
+                else:
+                    out[a.name.split(".")[0]] = a.name.split(".")[0]
+        elif isinstance(node, ast.ImportFrom):
+            base = "." * node.level + (node.module or "")
+            for a in node.names:
+                out.setdefault(a.asname or a.name, (base + ("" if base.endswith(".") or not base else ".") + a.name))
+    return out
+
+
+def _dotted(node):
+    parts = []
+    while isinstance(node, ast.Attribute):
+        parts.append(node.attr)
+        node = node.value
+    if isinstance(node, ast.Name):
+        parts.append(node.id)
+        return list(reversed(parts))
+    return None
+
+
+class _Rename(ast.NodeTransformer):
+    def __init__(self, names, kwargs=None, self_attrs=None, defs=None):
+        self.names, self.kwargs, self.self_attrs, self.defs = names, kwargs or {}, self_attrs or {}, defs or {}
+
+    def visit_Name(self, node):
+        node.id = self.names.get(node.id, node.id)
+        return node
+
+    def visit_arg(self, node):
+        node.arg = self.names.get(node.arg, node.arg)
+        return node
+
+    def visit_keyword(self, node):
+        self.generic_visit(node)
+        if node.arg in self.kwargs:
+            node.arg = self.kwargs[node.arg]
+        return node
+
+    def visit_Attribute(self, node):
+        self.generic_visit(node)
+        if isinstance(node.value, ast.Name) and node.value.id == "self" and node.attr in self.self_attrs:
+            node.attr = self.self_attrs[node.attr]
+        return node
+
+    def visit_FunctionDef(self, node):
+        node.name = self.defs.get(node.name, node.name)
+        self.generic_visit(node)
+        return node
+
+    visit_AsyncFunctionDef = visit_FunctionDef
+
+    def visit_ClassDef(self, node):
+        node.name = self.defs.get(node.name, node.name)
+        self.generic_visit(node)
+        return node
+
+
+def _safe_map(m, scope):
+    """a rename map is only applied when it is injective and does not capture a name already used in the scope"""
+    m = {k: v for k, v in m.items() if k != v}
+    used = {n.id for n in ast.walk(scope) if isinstance(n, ast.Name)} | {a.arg for a in ast.walk(scope) if isinstance(a, ast.arg)}
+    targets = list(m.values())
+    if len(set(targets)) != len(targets):
+        return {}
+    for k, v in m.items():
+        if v in used and v not in m:          # would capture another variable
+            return {}
+    return m
+
+
+def canonicalise(tree):
+    aliases = _module_aliases(tree)
+    imports = _imports(tree)
+    resolved = set()
+
+    # ---- qualified calls -> bare canonical names (whole module: _log, start_time, ...)
+    for node in ast.walk(tree):
+        if isinstance(node, ast.Call) and isinstance(node.func, ast.Attribute):
+            d = _dotted(node.func)
+            if d and d[0] in aliases and d[0] not in ("self",):
+                mod = aliases[d[0]]
+                path = ".".join([mod] + d[1:-1]) if len(d) > 2 else mod
+                key = (path, d[-1])
+                if key in CANON_CALLS:
+                    node.func = ast.copy_location(ast.Name(id=CANON_CALLS[key], ctx=ast.Load()), node.func)
+                    resolved.add(CANON_CALLS[key])
+    for (mod, name), bare in CANON_CALLS.items():
+        if bare not in resolved and imports.get(bare) == (mod, name):
+            resolved.add(bare)
+        elif bare in imports and imports[bare] != (mod, name):
+            resolved.discard(bare)
+
+    try:
+        cls = find_class(tree, "Logger")
+    except Unsupported:
+        return resolved
+    # ---- _log
+    for fn in [f for f in cls.body if isinstance(f, ast.FunctionDef) and f.name == "_log"]:
+        m = {}
+        want_params = ["self", "level", "from_decorator", "options", "message", "args", "kwargs"]
+        params = [a.arg for a in fn.args.args]
+        if len(params) == len(want_params):
+            m.update(dict(zip(params, want_params)))
+        opt_param = params[3] if len(params) > 3 else None
+        calls = {}
+        for node in ast.walk(fn):
+            if isinstance(node, ast.Assign) and len(node.targets) == 1 and isinstance(node.targets[0], ast.Name) \
+                    and isinstance(node.value, ast.Call) and isinstance(node.value.func, ast.Name):
+                calls.setdefault(node.value.func.id, []).append(node)
+        gf = calls.get("get_frame", [])
+        if len(gf) == 1:
+            frame_local = gf[0].targets[0].id
+            m[frame_local] = "frame"
+            # the depth local: the only unpacked option the get_frame argument mentions
+            unpacked = []
+            for node in ast.walk(fn):
+                if isinstance(node, ast.Assign) and isinstance(node.targets[0], ast.Tuple) and isinstance(node.value, ast.Name) \
+                        and node.value.id == opt_param:
+                    unpacked = [e.id for e in node.targets[0].elts if isinstance(e, ast.Name)]
+            used = [n.id for a in gf[0].value.args for n in ast.walk(a) if isinstance(n, ast.Name) and n.id in unpacked]
+            if len(set(used)) == 1:
+                m[used[0]] = "depth"
+            role = {"f_globals": "f_globals", "f_lineno": "f_lineno", "f_code.co_name": "co_name", "f_code.co_filename": "co_filename"}
+            for node in ast.walk(fn):
+                if isinstance(node, ast.Assign) and len(node.targets) == 1 and isinstance(node.targets[0], ast.Name):
+                    d = _dotted(node.value) if isinstance(node.value, ast.Attribute) else None
+                    if d and d[0] == frame_local and ".".join(d[1:]) in role:
+                        m[node.targets[0].id] = role[".".join(d[1:])]
+            inv = {v: k for k, v in m.items()}
+            for node in ast.walk(fn):
+                if isinstance(node, ast.Assign) and len(node.targets) == 1 and isinstance(node.targets[0], ast.Name):
+                    v = node.value
+                    if isinstance(v, ast.Subscript) and isinstance(v.value, ast.Name) and v.value.id == inv.get("f_globals") \
+                            and isinstance(v.slice, ast.Constant) and v.slice.value == "__name__":
+                        m[node.targets[0].id] = "name"
+        for callee, canon_local in (("basename", "file_name"), ("current_thread", "thread"), ("current_process", "process"),
+                                    ("aware_now", "current_datetime")):
+            tg = {a.targets[0].id for a in calls.get(callee, [])}
+            if len(tg) == 1:
+                m[tg.pop()] = canon_local
+        for node in ast.walk(fn):
+            if isinstance(node, ast.Assign) and len(node.targets) == 1 and isinstance(node.targets[0], ast.Name) \
+                    and isinstance(node.value, ast.Dict):
+                keys = {k.value: v for k, v in zip(node.value.keys, node.value.values) if isinstance(k, ast.Constant)}
+                if {"elapsed", "thread", "process", "time", "function"} <= set(keys):
+                    m[node.targets[0].id] = "log_record"
+                    if isinstance(keys["elapsed"], ast.Name):
+                        m[keys["elapsed"].id] = "elapsed"
+        m = _safe_map(m, fn)
+        if m:
+            _Rename(m).visit(fn)
+        # the module constant `elapsed` is measured from: the module-level name bound to aware_now() that the
+        # (now canonical) `elapsed = current_datetime - <it>` subtracts
+        for node in ast.walk(fn):
+            if isinstance(node, ast.Assign) and len(node.targets) == 1 and isinstance(node.targets[0], ast.Name) \
+                    and node.targets[0].id == "elapsed" and isinstance(node.value, ast.BinOp) and isinstance(node.value.op, ast.Sub) \
+                    and isinstance(node.value.left, ast.Name) and node.value.left.id == "current_datetime" \
+                    and isinstance(node.value.right, ast.Name) and node.value.right.id != "start_time":
+                y = node.value.right.id
+                bound = [st for st in tree.body if isinstance(st, ast.Assign) and len(st.targets) == 1
+                         and isinstance(st.targets[0], ast.Name) and st.targets[0].id == y]
+                clash = any(isinstance(n, ast.Name) and n.id == "start_time" for n in ast.walk(tree))
+                if len(bound) == 1 and not clash and y not in {a.arg for a in ast.walk(fn) if isinstance(a, ast.arg)} \
+                        and not any(isinstance(n, ast.Name) and n.id == y and isinstance(n.ctx, ast.Store) for n in ast.walk(fn)):
+                    _Rename({y: "start_time"}).visit(tree)
+
+    # ---- catch(): alias of self, Catcher, __exit__ locals, wrapper names
+    for fn in [f for f in cls.body if isinstance(f, ast.FunctionDef) and f.name == "catch"]:
+        m, kw, attrs, defs = {}, {}, {}, {}
+        for st in fn.body:
+            if isinstance(st, ast.Assign) and len(st.targets) == 1 and isinstance(st.targets[0], ast.Name) \
+                    and isinstance(st.value, ast.Name) and st.value.id == fn.args.args[0].arg:
+                m[st.targets[0].id] = "logger"
+        if fn.args.args[0].arg != "self":
+            m[fn.args.args[0].arg] = "self"
+        last = fn.body[-1]
+        catcher_cls = None
+        if isinstance(last, ast.Return) and isinstance(last.value, ast.Call) and isinstance(last.value.func, ast.Name):
+            for st in fn.body:
+                if isinstance(st, ast.ClassDef) and st.name == last.value.func.id:
+                    catcher_cls = st
+                    defs[st.name] = "Catcher"
+                    m[st.name] = "Catcher"
+        if catcher_cls is not None:
+            meths = {f.name: f for f in catcher_cls.body if isinstance(f, (ast.FunctionDef, ast.AsyncFunctionDef))}
+            ini = meths.get("__init__")
+            if ini is not None and len(ini.args.args) == 2 and len(ini.body) == 1 and isinstance(ini.body[0], ast.Assign) \
+                    and isinstance(ini.body[0].targets[0], ast.Attribute) and isinstance(ini.body[0].value, ast.Name) \
+                    and ini.body[0].value.id == ini.args.args[1].arg:
+                attrs[ini.body[0].targets[0].attr] = "_from_decorator"
+                m_init = _safe_map({ini.args.args[0].arg: "self", ini.args.args[1].arg: "from_decorator"}, ini)
+                _Rename(m_init).visit(ini)
+            ex = meths.get("__exit__")
+            if ex is not None:
+                me = {}
+                pos = [a.arg for a in ex.args.args]
+                if len(pos) == 4:
+                    me.update(dict(zip(pos, ["self", "type_", "value", "traceback_"])))
+                if len(ex.args.kwonlyargs) == 1:
+                    me[ex.args.kwonlyargs[0].arg] = "_frames"
+                    kw[ex.args.kwonlyargs[0].arg] = "_frames"
+                flag_attr = [k for k, v in attrs.items() if v == "_from_decorator"] or ["_from_decorator"]
+                for node in ast.walk(ex):
+                    if isinstance(node, ast.Assign) and len(node.targets) == 1 and isinstance(node.targets[0], ast.Name):
+                        v = node.value
+                        if isinstance(v, ast.Attribute) and isinstance(v.value, ast.Name) and v.value.id == pos[0] \
+                                and v.attr in flag_attr:
+                            me[node.targets[0].id] = "from_decorator"
+                logcalls = [n for n in ast.walk(ex) if isinstance(n, ast.Call) and isinstance(n.func, ast.Attribute)
+                            and n.func.attr == "_log"]
+                if len(logcalls) == 1 and len(logcalls[0].args) == 6 and isinstance(logcalls[0].args[2], ast.Name):
+                    opts_local = logcalls[0].args[2].id
+                    me[opts_local] = "catch_options"
+                    built = [n for n in ast.walk(ex) if isinstance(n, ast.Assign) and len(n.targets) == 1
+                             and isinstance(n.targets[0], ast.Name) and n.targets[0].id == opts_local
+                             and isinstance(n.value, (ast.List, ast.Tuple))]
+                    unpacks = [n for n in ast.walk(ex) if isinstance(n, ast.Assign) and isinstance(n.targets[0], ast.Tuple)
+                               and isinstance(n.value, ast.Attribute) and n.value.attr == "_options"]
+                    if len(built) == 1 and len(unpacks) == 1:
+                        in_built = [e.id for e in built[0].value.elts if isinstance(e, ast.Name)]
+                        cand = [e.id for e in unpacks[0].targets[0].elts if isinstance(e, ast.Name) and e.id in in_built]
+                        if len(cand) == 1:
+                            me[cand[0]] = "depth"
+                        stars = [e.value.id for e in unpacks[0].targets[0].elts if isinstance(e, ast.Starred)
+                                 and isinstance(e.value, ast.Name)]
+                        if len(stars) == 1:
+                            me[stars[0]] = "options"
+                me = _safe_map(me, ex)
+                if me:
+                    _Rename(me).visit(ex)
+            ax = meths.get("__aexit__")
+            if ax is not None and len(ax.args.args) == 4:
+                ma = _safe_map(dict(zip([a.arg for a in ax.args.args], ["self", "type_", "value", "traceback_"])), ax)
+                if ma:
+                    _Rename(ma).visit(ax)
+            callm = meths.get("__call__")
+            if callm is not None:
+                mc = {}
+                if len(callm.args.args) == 2:
+                    mc.update(dict(zip([a.arg for a in callm.args.args], ["self", "function"])))
+                for st in callm.body:
+                    if isinstance(st, ast.Assign) and len(st.targets) == 1 and isinstance(st.targets[0], ast.Name) \
+                            and isinstance(st.value, ast.Call) and isinstance(st.value.func, ast.Name) \
+                            and st.value.func.id in (catcher_cls.name, "Catcher"):
+                        mc[st.targets[0].id] = "catcher"
+                lastc = callm.body[-1] if callm.body else None
+                dc = {}
+                if isinstance(lastc, ast.Return) and isinstance(lastc.value, ast.Name):
+                    dc[lastc.value.id] = "catch_wrapper"
+                    mc[lastc.value.id] = "catch_wrapper"
+                mc = _safe_map(mc, callm)
+                if mc:
+                    _Rename(mc, defs=dc).visit(callm)
+        m = _safe_map(m, fn)
+        _Rename(m, kwargs=kw, self_attrs=attrs, defs=defs).visit(fn)
+    return resolved
+
+
+def _cond_result(fn):
+    """(test, value-if-true, value-if-false) source texts of a function that only selects one of two values:
+    `if c: x = a else: x = b; return x`, `if c: return a [else:] return b`, `return a if c else b`."""
+    b = _body(fn)
+    if len(b) == 1 and isinstance(b[0], ast.Return) and isinstance(b[0].value, ast.IfExp):
+        e = b[0].value
+        return _src(e.test), _src(e.body), _src(e.orelse)
+    if b and isinstance(b[0], ast.If):
+        i = b[0]
+
+        def single(stmts):
+            if len(stmts) == 1 and isinstance(stmts[0], ast.Return) and stmts[0].value is not None:
+                return ("ret", _src(stmts[0].value))
+            if len(stmts) == 1 and isinstance(stmts[0], ast.Assign) and len(stmts[0].targets) == 1 \
+                    and isinstance(stmts[0].targets[0], ast.Name):
+                return ("set", stmts[0].targets[0].id, _src(stmts[0].value))
+            return None
+        a = single(i.body)
+        if a and a[0] == "ret" and not i.orelse and len(b) == 2:
+            r = single(b[1:])
+            if r and r[0] == "ret":
+                return _src(i.test), a[1], r[1]
+        if a and a[0] == "ret" and len(b) == 1:
+            r = single(i.orelse)
+            if r and r[0] == "ret":
+                return _src(i.test), a[1], r[1]
+        if a and a[0] == "set" and len(b) == 2 and isinstance(b[1], ast.Return) and _src(b[1].value) == a[1]:
+            r = single(i.orelse)
+            if r and r[0] == "set" and r[1] == a[1]:
+                return _src(i.test), a[2], r[2]
+    raise Unsupported("%s does not select between two values:\n%s" % (fn.name, ast.unparse(fn)))
+
+
 def generate():
     errors = []
     body = "import LoguruModel.Frames.Base\nset_option linter.unusedVariables false\nnamespace Frames.Gen\nopen Frames\n\n"
     try:
         tree, _ = parse_module("_logger.py")
-        imports = _imports(tree)
-        for nm, want in (("get_frame", ("._get_frame", "get_frame")), ("basename", ("os.path", "basename")),
-                         ("splitext", ("os.path", "splitext")), ("current_thread", ("threading", "current_thread")),
-                         ("current_process", ("multiprocessing", "current_process")),
-                         ("aware_now", ("._datetime", "aware_now")), ("RecordFile", ("._recattrs", "RecordFile")),
-                         ("RecordThread", ("._recattrs", "RecordThread")),
-                         ("RecordProcess", ("._recattrs", "RecordProcess"))):
-            if imports.get(nm) != want:
-                raise Unsupported("%s is not imported from %s (%r)" % (nm, want[0], imports.get(nm)))
+        resolved = canonicalise(tree)
+        for nm in CANON_CALLS.values():
+            if nm not in resolved:
+                raise Unsupported("%s does not resolve to the expected import" % nm)
         # none of those names is rebound at module level
         for node in tree.body:
             if isinstance(node, (ast.Assign, ast.AugAssign, ast.AnnAssign, ast.FunctionDef, ast.ClassDef)):
@@ -185,7 +492,27 @@ def generate():
         if init_tuple is None:
             raise Unsupported("Logger.__init__ does not build self._options as a tuple")
         body += "/-- `self._options = (...)` in `Logger.__init__` -/\n"
-        body += "def initOptionNames : List Py.Str := [%s]\n\n" % ", ".join(lean_chars(x) for x in init_tuple)
+        body += "def initOptionNames : List Py.Str := [%s]\n" % ", ".join(lean_chars(x) for x in init_tuple)
+        # the slot of the tuple that receives opt()'s public `depth` keyword: opt -> Logger(core, ..., depth, ...) by
+        # position -> the __init__ parameter at that position -> its place in the tuple
+        init_params = [a.arg for a in init.args.args]
+        optm = [f for f in cls.body if isinstance(f, ast.FunctionDef) and f.name == "opt"]
+        if len(optm) != 1 or "depth" not in [a.arg for a in optm[0].args.kwonlyargs]:
+            raise Unsupported("opt() has no keyword-only depth parameter")
+        if sum(1 for n in ast.walk(optm[0]) if isinstance(n, ast.Name) and n.id == "depth" and isinstance(n.ctx, ast.Store)):
+            raise Unsupported("opt() reassigns depth")
+        rets = [n for n in ast.walk(optm[0]) if isinstance(n, ast.Return) and isinstance(n.value, ast.Call)
+                and _src(n.value.func) == "Logger"]
+        if len(rets) != 1 or rets[0].value.keywords:
+            raise Unsupported("opt() does not end in one positional Logger(...) call")
+        pos = [i for i, a_ in enumerate(rets[0].value.args) if isinstance(a_, ast.Name) and a_.id == "depth"]
+        if len(pos) != 1 or any(isinstance(a_, ast.Starred) for a_ in rets[0].value.args[:pos[0]]) or pos[0] + 1 >= len(init_params):
+            raise Unsupported("opt(): position of depth in Logger(...)")
+        recv = init_params[pos[0] + 1]
+        if init_tuple.count(recv) != 1:
+            raise Unsupported("__init__ parameter %s is not one slot of _options" % recv)
+        body += "/-- slot of `_options` that receives `opt(depth=...)` -/\n"
+        body += "def initDepthIndex : Nat := %d\n\n" % init_tuple.index(recv)
 
         # ------------------------------------------------------------------ _log
         logfn = [f for f in cls.body if isinstance(f, ast.FunctionDef) and f.name == "_log"]
@@ -471,11 +798,42 @@ def generate():
             raise Unsupported("__exit__ keyword-only parameters %r" % kwonly)
         body += "/-- default of the keyword-only `_frames` parameter of `Catcher.__exit__` (0 when absent) -/\n"
         body += "def exitFramesDefault : Int := (%d : Int)\n" % frames_default
-        # every statement of __exit__ that assigns depth after the unpacking, in order:
-        #   `if from_decorator: depth += K`   and   `depth += <expr over _frames>`
+        # every statement of __exit__ that assigns depth after the unpacking, executed symbolically in order:
+        #   `depth += e`, `depth -= e`, `depth = e`, `if [not] from_decorator: ... [else: ...]` over those;
+        #   e ranges over depth, _frames, from_decorator (conditional expressions included)
+        env["from_decorator"] = ("fromDecorator", "bool")
+        counter = [0]
+
+        def sym(term, stmts):
+            for st in stmts:
+                touches = any(isinstance(n, ast.Name) and n.id == "depth" and isinstance(n.ctx, ast.Store) for n in ast.walk(st))
+                if not touches:
+                    if isinstance(st, (ast.Pass, ast.Expr)) and not any(isinstance(n, ast.Call) for n in ast.walk(st)):
+                        continue
+                    raise Unsupported("__exit__: statement inside a depth adjustment " + _src(st))
+                e2 = dict(env, depth=(term, "int"))
+                if isinstance(st, ast.AugAssign) and isinstance(st.op, (ast.Add, ast.Sub)) and _src(st.target) == "depth":
+                    inc, typ = Tr(e2).tr(st.value)
+                    if typ != "int":
+                        raise Unsupported("depth increment type")
+                    term = "(%s %s %s)" % (term, "+" if isinstance(st.op, ast.Add) else "-", inc)
+                    counter[0] += 1
+                elif isinstance(st, ast.Assign) and len(st.targets) == 1 and _src(st.targets[0]) == "depth":
+                    term, typ = Tr(e2).tr(st.value)
+                    if typ != "int":
+                        raise Unsupported("depth value type")
+                    counter[0] += 1
+                elif isinstance(st, ast.If):
+                    c, typ = Tr(env).tr(st.test)
+                    if typ != "bool":
+                        raise Unsupported("depth adjustment condition " + _src(st.test))
+                    term = "(if %s then %s else %s)" % (c, sym(term, st.body), sym(term, st.orelse))
+                else:
+                    raise Unsupported("__exit__: depth adjustment shape " + _src(st))
+            return term
+
         term = "depth"
         doc = []
-        n_adj = 0
         first_adj = None
         for st in etop:
             touches = any(isinstance(n, ast.Name) and n.id == "depth" and isinstance(n.ctx, ast.Store) for n in ast.walk(st))
@@ -485,27 +843,10 @@ def generate():
                 raise Unsupported("__exit__: depth adjusted before it is unpacked")
             if first_adj is None:
                 first_adj = st
-            if isinstance(st, ast.If) and _src(st.test) == "from_decorator" and not st.orelse and len(st.body) == 1 \
-                    and isinstance(st.body[0], ast.AugAssign) and isinstance(st.body[0].op, (ast.Add, ast.Sub)) \
-                    and _src(st.body[0].target) == "depth":
-                inc, typ = Tr(env).tr(st.body[0].value)
-                if typ != "int":
-                    raise Unsupported("depth increment type")
-                op = "+" if isinstance(st.body[0].op, ast.Add) else "-"
-                term = "(if fromDecorator then (%s %s %s) else %s)" % (term, op, inc, term)
-                doc.append("if from_decorator: " + _src(st.body[0]))
-            elif isinstance(st, ast.AugAssign) and isinstance(st.op, (ast.Add, ast.Sub)) and _src(st.target) == "depth":
-                inc, typ = Tr(env).tr(st.value)
-                if typ != "int":
-                    raise Unsupported("depth increment type")
-                op = "+" if isinstance(st.op, ast.Add) else "-"
-                term = "(%s %s %s)" % (term, op, inc)
-                doc.append(_src(st))
-            else:
-                raise Unsupported("__exit__: depth adjustment shape " + _src(st))
-            n_adj += 1
-        if es.get("depth", 0) != 1 + n_adj:
-            raise Unsupported("__exit__: depth is assigned %d times, %d understood" % (es.get("depth", 0), 1 + n_adj))
+            term = sym(term, [st])
+            doc.append(_src(st).replace("\n", " "))
+        if es.get("depth", 0) != 1 + counter[0]:
+            raise Unsupported("__exit__: depth is assigned %d times, %d understood" % (es.get("depth", 0), 1 + counter[0]))
         aug = [first_adj] if first_adj is not None else []
         body += "/-- `%s` in `Catcher.__exit__` -/\n" % ("; ".join(doc) or "no adjustment of depth")
         body += "def catchDepth (fromDecorator : Bool) (frames : Int) (depth : Int) : Int := %s\n" % term
@@ -661,10 +1002,9 @@ def generate():
         # ------------------------------------------------------------------ _get_frame.py
         gtree, gsrc = parse_module("_get_frame.py")
         lg = find_func(gtree, "load_get_frame_function")
-        want = ("def load_get_frame_function():\n    if hasattr(sys, '_getframe'):\n        get_frame = sys._getframe\n"
-                "    else:\n        get_frame = get_frame_fallback\n    return get_frame")
-        if ast.unparse(lg) != want:
-            raise Unsupported("load_get_frame_function changed:\n" + ast.unparse(lg))
+        sel = _cond_result(lg)
+        if lg.args.args or sel != ("hasattr(sys, '_getframe')", "sys._getframe", "get_frame_fallback"):
+            raise Unsupported("load_get_frame_function changed: %r" % (sel,))
         ga = [n for n in gtree.body if isinstance(n, ast.Assign) and _src(n.targets[0]) == "get_frame"]
         if len(ga) != 1 or _src(ga[0].value) != "load_get_frame_function()":
             raise Unsupported("get_frame = load_get_frame_function()")
